@@ -575,7 +575,8 @@ def oracle_exception(case):
     msg = o["error"]["message"]
     if cls.__name__ not in msg:
         fail("C05/message", "message %r does not name the exception type %s" % (msg, cls.__name__), o)
-    if str(ex) not in msg:
+    # "names the text": white space at the ends of the text is the message's to lay out
+    if str(ex).strip() not in msg:
         fail("C05/message", "message %r does not contain the exception text %r" % (msg, str(ex)), o)
     if len(log) != 2 or n_direct != 1:
         fail("C05/invocations", "raising method invoked %d times for 2 calls" % len(log))
